@@ -138,6 +138,7 @@ func (a *Actor) ProcessRun() (rr error) {
 	}
 
 	for {
+		lib.VerifPoint("actor.state", a.Process)
 		if a.State() != gen.ProcessStateRunning {
 			// process was killed by the node.
 			return gen.TerminateReasonKill
@@ -150,6 +151,7 @@ func (a *Actor) ProcessRun() (rr error) {
 
 		for {
 			// check queues
+			lib.VerifPoint("actor.pop", a.Process)
 			msg, ok := a.mailbox.Urgent.Pop()
 			if ok {
 				// got new urgent message. handle it
@@ -157,6 +159,7 @@ func (a *Actor) ProcessRun() (rr error) {
 				break
 			}
 
+			lib.VerifPoint("actor.pop", a.Process)
 			msg, ok = a.mailbox.System.Pop()
 			if ok {
 				// got new system message. handle it
@@ -164,6 +167,7 @@ func (a *Actor) ProcessRun() (rr error) {
 				break
 			}
 
+			lib.VerifPoint("actor.pop", a.Process)
 			msg, ok = a.mailbox.Main.Pop()
 			if ok {
 				// got new regular message. handle it
@@ -171,6 +175,7 @@ func (a *Actor) ProcessRun() (rr error) {
 				break
 			}
 
+			lib.VerifPoint("actor.pop", a.Process)
 			msg, ok = a.mailbox.Log.Pop()
 			if ok {
 				if reason := a.behavior.HandleLog(msg.(gen.MessageLog)); reason != nil {
